@@ -13,6 +13,9 @@ type Printer struct {
 	C       *Ctx
 	emitted map[int]bool
 	ufDone  map[string]bool
+	// Named: emit every node as a declared constant constrained by an asserted equality instead of a macro
+	// (better for long incremental sessions: the definitions are encoded once and learned clauses survive).
+	Named bool
 }
 
 func NewPrinter(c *Ctx) *Printer {
@@ -111,7 +114,11 @@ func (p *Printer) Emit(roots ...*Term) string {
 				}
 				fmt.Fprintf(&sb, "(declare-fun %s (%s) %s)\n", quote(t.Name), strings.Join(as, " "), sig.Ret.SMT())
 			}
-			fmt.Fprintf(&sb, "(define-fun t%d () %s %s)\n", t.ID, t.Sort.SMT(), p.expr(t))
+			if p.Named {
+				fmt.Fprintf(&sb, "(declare-const t%d %s)\n(assert (= t%d %s))\n", t.ID, t.Sort.SMT(), t.ID, p.expr(t))
+			} else {
+				fmt.Fprintf(&sb, "(define-fun t%d () %s %s)\n", t.ID, t.Sort.SMT(), p.expr(t))
+			}
 		}
 	}
 	return sb.String()
